@@ -38,6 +38,10 @@ def _call(g, mode: int, a, b, c):
         return g(a, c=c, b=b)
     if mode == 3:
         return g(a, b, c=c)
+    if mode == 5:
+        return g(a, b=b)        # one keyword only: the other keeps its default
+    if mode == 6:
+        return g(a, c=b)        # the same VALUE under the other keyword name
     return g(a=a, b=b, c=c)
 
 
@@ -57,7 +61,7 @@ def wrap(a1: int, b1: int, c1: int, a2: int, b2: int, c2: int, a3: int, b3: int)
     try:
         g = getattr(caching, WRAPPER)(_pure)
         for (m, a, b, c) in ((m1, a1, b1, c1), (m2, a2, b2, c2), (m3, a3, b3, c3)):
-            if _call(g, m, a, b, c) != _pure(a, b, c):
+            if _call(g, m, a, b, c) != _call(_pure, m, a, b, c):
                 return fail("cached-result-differs-from-bare-function")
         return True
     finally:
@@ -274,6 +278,9 @@ CALLS = [
     ("path(g uri, server)", lambda: str(Sid("a__g:h/a/x/v1/g").path("server"))),
     ("unfold", lambda: sorted(s.uri for s in unfold_search("h/s,a/*"))),
     ("unfold extrapolate", lambda: sorted(s.uri for s in unfold_search("h/s,a/*", do_extrapolate=True))),
+    ("unfold uniquify kw", lambda: sorted(s.uri for s in unfold_search("h/s,a/*", do_uniquify=True))),
+    ("unfold uniquify kw false", lambda: [s.uri for s in unfold_search("h/s,a/*", do_uniquify=False)]),
+    ("unfold extrapolate kw false", lambda: sorted(s.uri for s in unfold_search("h/s,a/*", do_extrapolate=False))),
     ("unfold positional extrapolate", lambda: sorted(s.uri for s in unfold_search("h/s,a/*", False, True))),
     ("unfold Sid object", lambda: sorted(s.uri for s in unfold_search(Sid("s__c:" + _MULTI_S)))),
     ("unfold str multi s", lambda: sorted(s.uri for s in unfold_search(_MULTI_S))),
